@@ -37,9 +37,34 @@ def xfold(e: ast.AST, env: Dict[str, object]):
     """``q.fold`` extended with the size idioms ``sum(len(c) for c in X)`` /
     ``sum(map(len, X))`` over a constant sequence X (replaced by their value first)."""
     has_sum = any(isinstance(x, ast.Call) and isinstance(x.func, ast.Name) and x.func.id == "sum" for x in ast.walk(e))
-    if not has_sum:
+    has_sub = any(isinstance(x, ast.Subscript) for x in ast.walk(e))
+    if not has_sum and not has_sub:
         return q.fold(e, env)
     import copy
+
+    if has_sub:
+        class S(ast.NodeTransformer):
+            def visit_Subscript(self, node):
+                self.generic_visit(node)
+                if isinstance(node.slice, ast.Slice):
+                    return node
+                d = q.dotted(node.value) if isinstance(node.value, (ast.Name, ast.Attribute)) else None
+                try:
+                    base = env[d] if (d is not None and d in env) else q.fold(node.value, env)
+                    idx = q.fold(node.slice, env)
+                    if isinstance(base, (dict, tuple)) and not isinstance(base, str):
+                        val = base[idx]
+                        if isinstance(val, (int, bool, str, bytes, type(None), tuple)):
+                            return ast.copy_location(ast.Constant(value=val), node)
+                except (q.NotFoldable, KeyError, IndexError, TypeError):
+                    pass
+                return node
+
+        e = S().visit(copy.deepcopy(e))
+        if isinstance(e, ast.Constant):
+            return e.value
+        if not has_sum:
+            return q.fold(e, env)
 
     class T(ast.NodeTransformer):
         def visit_Call(self, node):
@@ -78,10 +103,10 @@ def class_consts(repo: Repo, relpath: str, clsname: str) -> Dict[str, object]:
         if tgt is None:
             continue
         try:
-            v = q.fold(val, bare)
+            v = _fold_table(val, bare)
         except q.NotFoldable:
             continue
-        if isinstance(v, _OKTYPES):
+        if isinstance(v, _OKTYPES) or isinstance(v, dict):
             bare[tgt] = v
     out: Dict[str, object] = {}
     for k, v in bare.items():
@@ -93,6 +118,13 @@ def class_consts(repo: Repo, relpath: str, clsname: str) -> Dict[str, object]:
 _ASSIGNED: Dict[Node, Set[str]] = {}
 _CALLS: Dict[Node, List[ast.Call]] = {}
 _CANON: Dict[Tuple[Node, bool], Tuple[str, bool]] = {}
+
+
+def _fold_table(e: ast.AST, env: Dict[str, object]):
+    """q.fold plus dict literals with constant keys/values (lookup tables)."""
+    if isinstance(e, ast.Dict) and all(k is not None for k in e.keys):
+        return {q.fold(k, env): _fold_table(v, env) for k, v in zip(e.keys, e.values)}
+    return q.fold(e, env)
 
 
 def _assigned(n: Node) -> Set[str]:
@@ -198,6 +230,16 @@ def explore_consts(
                 except q.NotFoldable:
                     env.pop(name, None)
                 done = True
+            if not done and isinstance(st, ast.Assign) and len(st.targets) == 1 and isinstance(st.targets[0], (ast.Tuple, ast.List)) and all(isinstance(t, ast.Name) for t in st.targets[0].elts):
+                try:
+                    v = xfold(st.value, full(env))
+                except q.NotFoldable:
+                    v = None
+                names = [t.id for t in st.targets[0].elts]
+                if isinstance(v, tuple) and len(v) == len(names) and all(isinstance(x, _OKTYPES) for x in v):
+                    for nm_, x in zip(names, v):
+                        env[nm_] = x
+                    done = True
             if not done:
                 for p in _assigned(n):
                     env.pop(p, None)
@@ -357,8 +399,30 @@ SOP = "self._fragmented_message_opcode"
 FC = "self._frame_compressed"
 MSG_STATE = (FC, BUF, SOP)
 
-FrameState = namedtuple("FrameState", "tags buf sop fc aborted handled preads plen closed hreads")
-FRAME_INIT = FrameState((), "untouched", None, None, False, 0, 0, None, (), ())
+FrameState = namedtuple("FrameState", "tags buf sop fc aborted handled reads closed")
+FRAME_INIT = FrameState((), "untouched", None, None, False, 0, (), ())
+# ``reads``: the length view (constant, or tag such as ('extlen', fmt, src)) of every stream read in path order.
+# No read is classified syntactically as "header" or "payload": the frame layout says how many fixed-size reads
+# precede the payload read (2 header bytes, extended length for codes 126/127, 4-byte key when masked).
+
+
+def hdr_count(m: Optional[int]) -> int:
+    if m is None:
+        return 1
+    return 1 + (1 if (m & 0x7F) in (126, 127) else 0) + (1 if m & 0x80 else 0)
+
+
+def plen(u):
+    return u.reads[-1] if u.reads else None
+
+
+def payload_read(u, m: Optional[int]) -> bool:
+    """whether a read beyond the frame header happened on this path"""
+    return len(u.reads) > hdr_count(m)
+
+
+def read_tag(t) -> bool:
+    return isinstance(t, tuple) and len(t) == 2 and t[0] == "read"
 
 
 def _tag_get(tags, path):
@@ -390,7 +454,15 @@ def _targets(st) -> List[str]:
 
 
 def is_payloadish(tag) -> bool:
-    return tag in ("payload", "unmasked")
+    return tag == "unmasked" or read_tag(tag)
+
+
+def _len_view(a, u, env):
+    v = fold_in(a, env, None)
+    if isinstance(v, int) and not isinstance(v, bool):
+        return v
+    t = _tag_get(u.tags, q.dotted(a) or "?") if isinstance(a, (ast.Name, ast.Attribute)) else None
+    return t if t is not None else "?"
 
 
 def frame_transfer(read_fn: str = "self._read_bytes", mask_fn: str = "_websocket_mask"):
@@ -400,15 +472,12 @@ def frame_transfer(read_fn: str = "self._read_bytes", mask_fn: str = "_websocket
         if isinstance(e, ast.Await):
             e = e.value
             if q.is_call(e, read_fn) and len(e.args) == 1:
-                a = e.args[0]
-                if isinstance(a, ast.Constant) and type(a.value) is int:
-                    return ("hdr", a.value)
-                return "payload"
+                return ("read", _len_view(e.args[0], u, env))
             return None
         if q.is_call(e, mask_fn) and len(e.args) == 2:
             k = _tag_get(u.tags, q.dotted(e.args[0]) or "?")
             x = _tag_get(u.tags, q.dotted(e.args[1]) or "?")
-            if k == ("hdr", 4) and x == "payload":
+            if k == ("read", 4) and read_tag(x):
                 return "unmasked"
             return "badmask"
         if isinstance(e, ast.Call) and q.call_name(e) in ("bytes", "bytearray") and len(e.args) == 1 and q.dotted(e.args[0]) == BUF:
@@ -431,10 +500,11 @@ def frame_transfer(read_fn: str = "self._read_bytes", mask_fn: str = "_websocket
             return "saved-opcode"
         if d is not None:
             return _tag_get(u.tags, d)
-        if isinstance(e, ast.Subscript) and q.is_call(e.value, "struct.unpack") and len(e.value.args) == 2 and isinstance(e.value.args[0], ast.Constant):
+        if isinstance(e, ast.Subscript) and q.is_call(e.value, "struct.unpack") and len(e.value.args) == 2:
             idx = e.slice
-            if isinstance(idx, ast.Constant) and idx.value == 0:
-                return ("extlen", e.value.args[0].value, _tag_get(u.tags, q.dotted(e.value.args[1]) or "?"))
+            fmt = fold_in(e.value.args[0], env, None)  # a literal, or a name/table entry that folds on this path
+            if isinstance(idx, ast.Constant) and idx.value == 0 and isinstance(fmt, str):
+                return ("extlen", fmt, _tag_get(u.tags, q.dotted(e.value.args[1]) or "?"))
         return None
 
     def utransfer(n: Node, u: FrameState, env):
@@ -449,14 +519,8 @@ def frame_transfer(read_fn: str = "self._read_bytes", mask_fn: str = "_websocket
         for c in calls_in_node(n, "self._handle_message"):
             u = u._replace(handled=min(u.handled + 1, 2))
         for c in calls_in_node(n, read_fn):
-            if len(c.args) == 1 and isinstance(c.args[0], ast.Constant) and type(c.args[0].value) is int and len(u.hreads) < 6:
-                u = u._replace(hreads=u.hreads + (c.args[0].value,))
-            if len(c.args) == 1 and not isinstance(c.args[0], ast.Constant):
-                a = c.args[0]
-                v = fold_in(a, env, None)
-                if v is None:
-                    v = _tag_get(u.tags, q.dotted(a) or "?") or "?"
-                u = u._replace(preads=min(u.preads + 1, 2), plen=v)
+            if len(c.args) == 1 and len(u.reads) < 8:
+                u = u._replace(reads=u.reads + (_len_view(c.args[0], u, env),))
         # mutating calls on the reassembly buffer
         for c in [x for x in node_calls_all(n) if isinstance(x.func, ast.Attribute) and q.dotted(x.func.value) == BUF]:
             if c.func.attr in ("extend", "append") and len(c.args) == 1 and is_payloadish(_tag_get(u.tags, q.dotted(c.args[0]) or "?")) and u.buf == "untouched":
